@@ -293,14 +293,19 @@ func C20(c *core.Ctx) {
 		}
 		uni := map[string][]string{"CHF": {"Cash"}}
 		classes := [][]string{{"Stocks", "Tech"}, {"Stocks", "Pharma"}, {"Bonds", "Gov"}}
+		spread := rng.Intn(2) == 0 // sibling classes both populated (Stocks:Tech and Stocks:Pharma)
 		for k, s := range secs {
-			if rng.Intn(4) > 0 {
+			if spread && k < 2 {
+				uni[s] = classes[k]
+			} else if rng.Intn(4) > 0 {
 				uni[s] = classes[(k+rng.Intn(2))%3]
 			}
 		}
 		var rules []kj.Rule
 		if rng.Intn(2) == 0 {
-			rules = append(rules, []kj.Rule{{Level: 1, Regex: "Stocks"}, {Level: 1, Suffix: 1, Regex: "^(Stocks|Bonds)"}, {Level: 2, Regex: "."}, {Level: 1, Regex: "Stocks:Tech"}, {Level: 1, Suffix: 1, Regex: "."}, {Level: 1, Suffix: 1, Regex: "Tech|Gov"}}[rng.Intn(6)])
+			// whole-group folds, suffix rules, and rules that fold only one member of a group (the group node is then
+			// a leaf and an inner node at once)
+			rules = append(rules, []kj.Rule{{Level: 1, Regex: "Stocks"}, {Level: 1, Suffix: 1, Regex: "^(Stocks|Bonds)"}, {Level: 2, Regex: "."}, {Level: 1, Regex: "Stocks:Tech"}, {Level: 1, Suffix: 1, Regex: "."}, {Level: 1, Suffix: 1, Regex: "Tech|Gov"}, {Level: 1, Regex: "Stocks:Pharma"}, {Level: 1, Regex: "Tech$"}}[rng.Intn(8)])
 		}
 		jobs[i] = pfJob{J: j, F: f, Universe: uni, Rules: rules}
 	}
